@@ -12,6 +12,7 @@ import (
 	"gitlab.com/gomidi/midi/v2/zverif/adapt"
 	"gitlab.com/gomidi/midi/v2/zverif/ev"
 	"gitlab.com/gomidi/midi/v2/zverif/gen"
+	"gitlab.com/gomidi/midi/v2/zverif/hx"
 	"gitlab.com/gomidi/midi/v2/zverif/ref/smfref"
 	"pgregory.net/rapid"
 )
@@ -116,6 +117,35 @@ var files = ev.NewCheck("C03", "written-files",
 	}, run)
 
 func TestPropWrittenFiles(t *testing.T) { files.Rapid(t, 2000, 50000) }
+
+// very many tracks: the 16-bit track count of the header against the chunks that follow
+var manyTracks = ev.NewCheck("C03", "many-tracks",
+	"enumeration: values with 255, 256, 257, 300, 4000 (thorough: also 32768, 65535) small tracks through NewSMF1 / New, with and without running status; same strict-parser oracle as 'written-files' (in particular header track count == number of MTrk chunks)",
+	nil, run)
+
+func TestEnumManyTracks(t *testing.T) {
+	if ev.Shard() != 0 {
+		return
+	}
+	manyTracks.R.Exhaustive = true
+	ns := []int{255, 256, 257, 300, 4000}
+	if ev.Thorough() {
+		ns = append(ns, 32768, 65535)
+	}
+	for _, n := range ns {
+		for _, ctor := range []string{"NewSMF1", "New"} {
+			c := gen.APICase{Ctor: ctor, NoRunningStatus: n%2 == 0}
+			for i := 0; i < n; i++ {
+				to := gen.TrackOps{Ops: []gen.Op{{Kind: "add", Delta: uint32(i % 3), Msgs: []hx.B{{0x90 | byte(i&15), byte(i % 128), byte(1 + i%100)}}}}}
+				if i%2 == 0 {
+					to.Ops = append(to.Ops, gen.Op{Kind: "close", Delta: uint32(i % 5)})
+				}
+				c.Tracks = append(c.Tracks, to)
+			}
+			manyTracks.One(t, c)
+		}
+	}
+}
 
 // ---- VLQ codec ------------------------------------------------------------------------
 
